@@ -1,16 +1,21 @@
-(* Proofs about Model/QueryParse.v (property C15): the parser is total and
-   raises nothing but ValueError; unbalanced closing symbols are accepted. *)
+(* Proofs about Model/QueryParse.v (property C15): the parser is total; it
+   raises nothing but ValueError (genuine rejection) or, when the available
+   nesting depth is exhausted, RecursionError -- which enough depth excludes and
+   which QueryHandler.__init__ (fix commit 0643166) turns into ValueError. *)
 From Coq Require Import List NArith Arith Bool Lia.
 From HV Require Import Base.Res Base.Str Model.Query Model.QueryParse.
 Import ListNotations.
 
-(* a parser result is "good" for input ts: ValueError, or success having
-   consumed at least one token *)
-Definition good (ts : list token) (x : res (expr * list token)) : Prop :=
-  x = Exn ValueError \/ exists e r, x = Ok (e, r) /\ length r < length ts.
+(* a parser result for input ts: a genuine rejection, (if [allow]) an exhausted
+   depth, or success having consumed at least one token *)
+Definition goodx (allow : bool) (ts : list token) (x : res (expr * list token)) : Prop :=
+  x = Exn ValueError \/ (allow = true /\ x = Exn RecursionError) \/
+  exists e r, x = Ok (e, r) /\ length r < length ts.
 
-Definition good_upto (n : nat) (p : parser) : Prop :=
-  forall ts, length ts < n -> good ts (p ts).
+Definition good := goodx false.
+
+Definition good_upto (allow : bool) (n : nat) (p : parser) : Prop :=
+  forall ts, length ts < n -> goodx allow ts (p ts).
 
 Lemma next_is_shorter k ts t r : next_is k ts = Some (t, r) -> length ts = S (length r).
 Proof.
@@ -19,127 +24,182 @@ Proof.
   intro H; inversion H; subst; reflexivity.
 Qed.
 
-Lemma p_grouping_good fx n rec ts :
-  good_upto n rec -> length ts <= n -> good ts (p_grouping fx rec ts).
+Ltac stop_v := left; reflexivity.
+Ltac stop_r H := right; left; split; [exact H | reflexivity].
+Ltac take_ok := right; right; eexists; eexists; split; [reflexivity | simpl; lia].
+
+Lemma p_grouping_good fx allow n rec ts :
+  good_upto allow n rec -> length ts <= n -> goodx allow ts (p_grouping fx rec ts).
 Proof.
-  intros Hrec Hlen. destruct ts as [|t r]; [left; reflexivity|].
+  intros Hrec Hlen. destruct ts as [|t r]; [stop_v|].
   simpl in Hlen.
-  assert (Hr : good r (rec r)) by (apply Hrec; lia).
+  assert (Hr : goodx allow r (rec r)) by (apply Hrec; lia).
   unfold p_grouping.
   destruct (tk_kind t) eqn:Hk;
-    try (destruct (fx && negb (is_operand t)); [left; reflexivity|]);
-    try (right; eexists; eexists; split; [reflexivity | simpl; lia]).
+    try (destruct (fx && negb (is_operand t)); [stop_v|]);
+    try take_ok.
   - (* KDesc *)
-    destruct Hr as [Hr | (e & r1 & Hr & Hl)]; rewrite Hr; simpl; [left; reflexivity|].
-    destruct (next_is KDescEnd r1) as [[t1 r2]|] eqn:Hn; [|left; reflexivity].
-    apply next_is_shorter in Hn. right; eexists; eexists; split; [reflexivity | simpl; lia].
+    destruct Hr as [Hr | [[Ha Hr] | (e & r1 & Hr & Hl)]]; rewrite Hr; simpl; [stop_v | stop_r Ha |].
+    destruct (next_is KDescEnd r1) as [[t1 r2]|] eqn:Hn; [|stop_v].
+    apply next_is_shorter in Hn. take_ok.
   - (* KLG *)
-    destruct Hr as [Hr | (e & r1 & Hr & Hl)]; rewrite Hr; simpl; [left; reflexivity|].
-    destruct (next_is KLGEnd r1) as [[t1 r2]|] eqn:Hn; [|left; reflexivity].
-    apply next_is_shorter in Hn. right; eexists; eexists; split; [reflexivity | simpl; lia].
+    destruct Hr as [Hr | [[Ha Hr] | (e & r1 & Hr & Hl)]]; rewrite Hr; simpl; [stop_v | stop_r Ha |].
+    destruct (next_is KLGEnd r1) as [[t1 r2]|] eqn:Hn; [|stop_v].
+    apply next_is_shorter in Hn. take_ok.
   - (* KExact *)
-    destruct Hr as [Hr | (e & r1 & Hr & Hl)]; rewrite Hr; simpl; [left; reflexivity|].
+    destruct Hr as [Hr | [[Ha Hr] | (e & r1 & Hr & Hl)]]; rewrite Hr; simpl; [stop_v | stop_r Ha |].
     destruct (next_is KExactEnd r1) as [[t1 r2]|] eqn:Hn.
-    { apply next_is_shorter in Hn. right; eexists; eexists; split; [reflexivity | simpl; lia]. }
-    destruct (next_is KExactOpt r1) as [[t1 r2]|] eqn:Hn2; [|left; reflexivity].
+    { apply next_is_shorter in Hn. take_ok. }
+    destruct (next_is KExactOpt r1) as [[t1 r2]|] eqn:Hn2; [|stop_v].
     apply next_is_shorter in Hn2.
     destruct (next_is KExactEnd r2) as [[t2 r3]|] eqn:Hn3.
     { apply next_is_shorter in Hn3.
-      match goal with |- good _ (if ?c then _ else _) => destruct c end; [left; reflexivity|].
-      right; eexists; eexists; split; [reflexivity | simpl; lia]. }
-    assert (Hr2 : good r2 (rec r2)) by (apply Hrec; lia).
-    destruct Hr2 as [Hr2 | (o & r3 & Hr2 & Hl2)]; rewrite Hr2; simpl; [left; reflexivity|].
-    match goal with |- good _ (if ?c then _ else _) => destruct c end; [left; reflexivity|].
-    destruct (next_is KExactEnd r3) as [[t4 r4]|] eqn:Hn4; [|left; reflexivity].
-    apply next_is_shorter in Hn4. right; eexists; eexists; split; [reflexivity | simpl; lia].
+      match goal with |- goodx _ _ (if ?c then _ else _) => destruct c end; [stop_v|]. take_ok. }
+    assert (Hr2 : goodx allow r2 (rec r2)) by (apply Hrec; lia).
+    destruct Hr2 as [Hr2 | [[Ha Hr2] | (o & r3 & Hr2 & Hl2)]]; rewrite Hr2; simpl; [stop_v | stop_r Ha |].
+    match goal with |- goodx _ _ (if ?c then _ else _) => destruct c end; [stop_v|].
+    destruct (next_is KExactEnd r3) as [[t4 r4]|] eqn:Hn4; [|stop_v].
+    apply next_is_shorter in Hn4. take_ok.
 Qed.
 
-Lemma p_neg_good fx n rec ts :
-  good_upto n rec -> length ts <= n -> good ts (p_neg fx rec ts).
+Lemma p_neg_good fx allow n rec ts :
+  good_upto allow n rec -> length ts <= n -> goodx allow ts (p_neg fx rec ts).
 Proof.
   intros Hrec Hlen. unfold p_neg.
   destruct (next_is KNeg ts) as [[t r]|] eqn:Hn; [|apply p_grouping_good with n; assumption].
   apply next_is_shorter in Hn.
-  assert (Hg : good r (p_grouping fx rec r)) by (apply p_grouping_good with n; [assumption | lia]).
-  destruct Hg as [Hg | (e & r1 & Hg & Hl)]; rewrite Hg; simpl; [left; reflexivity|].
-  destruct (expr_has_ch ch_qmark e); [left; reflexivity|].
-  right; eexists; eexists; split; [reflexivity | lia].
+  assert (Hg : goodx allow r (p_grouping fx rec r)) by (apply p_grouping_good with n; [assumption | lia]).
+  destruct Hg as [Hg | [[Ha Hg] | (e & r1 & Hg & Hl)]]; rewrite Hg; simpl; [stop_v | stop_r Ha |].
+  destruct (expr_has_ch ch_qmark e); [stop_v|]. take_ok.
 Qed.
 
 (* the loop never runs out of iterations when p consumes tokens *)
-Lemma p_loop_good (p : parser) k mk : forall n e ts m,
-  (forall ts', length ts' < m -> good ts' (p ts')) ->
+Lemma p_loop_good allow (p : parser) k mk : forall n e ts m,
+  (forall ts', length ts' < m -> goodx allow ts' (p ts')) ->
   length ts <= m -> length ts <= n ->
-  p_loop p k mk n e ts = Exn ValueError \/
+  p_loop p k mk n e ts = Exn ValueError \/ (allow = true /\ p_loop p k mk n e ts = Exn RecursionError) \/
   exists e' r, p_loop p k mk n e ts = Ok (e', r) /\ length r <= length ts.
 Proof.
   induction n as [|n IH]; intros e ts m Hp Hm Hn.
-  - destruct ts; [|simpl in Hn; lia]. simpl. right; eexists; eexists; split; [reflexivity | lia].
+  - destruct ts; [|simpl in Hn; lia]. simpl. right; right; eexists; eexists; split; [reflexivity | lia].
   - simpl. destruct (next_is k ts) as [[t r]|] eqn:Hk.
     + apply next_is_shorter in Hk.
-      assert (Hg : good r (p r)) by (apply Hp; lia).
-      destruct Hg as [Hg | (e2 & r2 & Hg & Hl)]; rewrite Hg; simpl; [left; reflexivity|].
-      destruct (IH (mk (tk_text t) e e2) r2 m Hp) as [H | (e' & r' & H & Hl')]; try lia.
+      assert (Hg : goodx allow r (p r)) by (apply Hp; lia).
+      destruct Hg as [Hg | [[Ha Hg] | (e2 & r2 & Hg & Hl)]]; rewrite Hg; simpl;
+        [left; reflexivity | right; left; split; [exact Ha | reflexivity] |].
+      destruct (IH (mk (tk_text t) e e2) r2 m Hp) as [H | [[Ha H] | (e' & r' & H & Hl')]]; try lia.
       * left; assumption.
-      * right; exists e', r'; split; [assumption | lia].
-    + right; eexists; eexists; split; [reflexivity | lia].
+      * right; left; split; assumption.
+      * right; right; exists e', r'; split; [assumption | lia].
+    + right; right; eexists; eexists; split; [reflexivity | lia].
 Qed.
 
-Lemma p_and_good fx n rec ts :
-  good_upto n rec -> length ts <= n -> good ts (p_and fx rec ts).
+Lemma p_and_good fx allow n rec ts :
+  good_upto allow n rec -> length ts <= n -> goodx allow ts (p_and fx rec ts).
 Proof.
   intros Hrec Hlen. unfold p_and.
-  assert (Hg : good ts (p_neg fx rec ts)) by (apply p_neg_good with n; assumption).
-  destruct Hg as [Hg | (e & r & Hg & Hl)]; rewrite Hg; simpl; [left; reflexivity|].
-  destruct (p_loop_good (p_neg fx rec) KAnd EAnd (length r) e r (S n)) as [H | (e' & r' & H & Hl')]; try lia.
+  assert (Hg : goodx allow ts (p_neg fx rec ts)) by (apply p_neg_good with n; assumption).
+  destruct Hg as [Hg | [[Ha Hg] | (e & r & Hg & Hl)]]; rewrite Hg; simpl; [stop_v | stop_r Ha |].
+  destruct (p_loop_good allow (p_neg fx rec) KAnd EAnd (length r) e r (S n)) as [H | [[Ha H] | (e' & r' & H & Hl')]];
+    try lia.
   - intros ts' Hts'. apply p_neg_good with n; [assumption | lia].
   - left; assumption.
-  - right; exists e', r'; split; [assumption | lia].
+  - right; left; split; assumption.
+  - right; right; exists e', r'; split; [assumption | lia].
 Qed.
 
-Lemma p_or_body_good fx n rec ts :
-  good_upto n rec -> length ts <= n -> good ts (p_or_body fx rec ts).
+Lemma p_or_body_good fx allow n rec ts :
+  good_upto allow n rec -> length ts <= n -> goodx allow ts (p_or_body fx rec ts).
 Proof.
   intros Hrec Hlen. unfold p_or_body.
-  assert (Hg : good ts (p_and fx rec ts)) by (apply p_and_good with n; assumption).
-  destruct Hg as [Hg | (e & r & Hg & Hl)]; rewrite Hg; simpl; [left; reflexivity|].
-  destruct (p_loop_good (p_and fx rec) KOr EOr (length r) e r (S n)) as [H | (e' & r' & H & Hl')]; try lia.
+  assert (Hg : goodx allow ts (p_and fx rec ts)) by (apply p_and_good with n; assumption).
+  destruct Hg as [Hg | [[Ha Hg] | (e & r & Hg & Hl)]]; rewrite Hg; simpl; [stop_v | stop_r Ha |].
+  destruct (p_loop_good allow (p_and fx rec) KOr EOr (length r) e r (S n)) as [H | [[Ha H] | (e' & r' & H & Hl')]];
+    try lia.
   - intros ts' Hts'. apply p_and_good with n; [assumption | lia].
   - left; assumption.
-  - right; exists e', r'; split; [assumption | lia].
+  - right; left; split; assumption.
+  - right; right; exists e', r'; split; [assumption | lia].
 Qed.
 
-(* fuel f handles every token list shorter than f *)
-Lemma p_or_good fx : forall f, good_upto f (p_or fx f).
+(* ENOUGH DEPTH NEVER EXHAUSTS: fuel f handles every token list shorter than f
+   without RecursionError / Unmodelled (both codes) *)
+Lemma p_or_good fx : forall f, good_upto false f (p_or fx f).
 Proof.
-  induction f as [|f IH]; intros ts Hlen; [lia|].
-  simpl. apply p_or_body_good with f; [assumption | lia].
+  induction f as [|f IH]; intros ts Hlen; [simpl in Hlen; lia|].
+  simpl. apply (p_or_body_good fx false f); [exact IH | simpl in Hlen; lia].
 Qed.
 
-(* repaired code: exhausted depth is a ValueError, so every fuel is good for every input *)
-Lemma p_or_good_fixed : forall f n, good_upto n (p_or true f).
+(* current code, any depth: a genuine rejection, an exhausted depth, or a tree *)
+Lemma p_or_any : forall f n, good_upto true n (p_or true f).
 Proof.
-  induction f as [|f IH]; intros n ts Hlen; [left; reflexivity|].
-  simpl. apply p_or_body_good with (length ts); [apply IH | lia].
+  induction f as [|f IH]; intros n ts Hlen; [right; left; split; reflexivity|].
+  simpl. apply (p_or_body_good true true (length ts)); [apply IH | lia].
 Qed.
 
-(* _parse on any token list: a tree or ValueError, never anything else.
-   fx = false: the fuel (token count + 1) never runs out;
-   fx = true : whatever depth [limit] is available *)
+Definition fuel_of (fx : bool) (limit : nat) (ts : list token) : nat :=
+  if fx then Nat.min (S (length ts)) limit else S (length ts).
+
+(* _parse before the except clause: three outcomes, RecursionError only on the current code *)
+Lemma parse_raw_total fx limit ts :
+  (exists e, parse_raw fx limit ts = Ok e) \/ parse_raw fx limit ts = Exn ValueError \/
+  (fx = true /\ parse_raw fx limit ts = Exn RecursionError).
+Proof.
+  unfold parse_raw. fold (fuel_of fx limit ts).
+  assert (Hg : goodx fx ts (p_or fx (fuel_of fx limit ts) ts)).
+  { destruct fx; [apply (p_or_any _ (S (length ts))); lia|].
+    apply (p_or_good false (S (length ts))). lia. }
+  destruct Hg as [H | [[Ha H] | (e & r & H & Hl)]]; rewrite H; simpl.
+  - right; left; reflexivity.
+  - right; right; split; [exact Ha | reflexivity].
+  - destruct r; [left; eexists; reflexivity | right; left; reflexivity].
+Qed.
+
+(* enough depth (one level per token suffices): no RecursionError *)
+Lemma parse_raw_enough fx limit ts :
+  S (length ts) <= limit -> parse_raw fx limit ts <> Exn RecursionError.
+Proof.
+  intro Hl. unfold parse_raw.
+  assert (Hf : (if fx then Nat.min (S (length ts)) limit else S (length ts)) = S (length ts))
+    by (destruct fx; [apply Nat.min_l; exact Hl | reflexivity]).
+  rewrite Hf.
+  destruct (p_or_good fx (S (length ts)) ts) as [H | [[Ha _] | (e & r & H & _)]]; [lia | | discriminate |];
+    rewrite H; simpl; [discriminate|]. destruct r; discriminate.
+Qed.
+
+(* QueryHandler(q) on any token list: a tree or ValueError, never anything else *)
 Lemma parse_tokens_total fx limit (ts : list token) :
   (exists e, parse_tokens fx limit ts = Ok e) \/ parse_tokens fx limit ts = Exn ValueError.
 Proof.
   unfold parse_tokens.
-  assert (Hg : good ts (p_or fx (if fx then Nat.min (S (length ts)) limit else S (length ts)) ts)).
-  { destruct fx; [apply (p_or_good_fixed _ (S (length ts))); lia | apply p_or_good; lia]. }
-  destruct Hg as [H | (e & r & H & Hl)]; rewrite H; simpl.
+  destruct (parse_raw_total fx limit ts) as [(e & H) | [H | [Hfx H]]]; rewrite H.
+  - left; eexists; reflexivity.
   - right; reflexivity.
-  - destruct r; [left; eexists; reflexivity | right; reflexivity].
+  - subst fx. right; reflexivity.
 Qed.
 
 Lemma compile_total fx limit (q : str) :
   (exists e, compile fx limit q = Ok e) \/ compile fx limit q = Exn ValueError.
 Proof. unfold compile. apply parse_tokens_total. Qed.
+
+Lemma compile_raw_total fx limit q :
+  (exists e, compile_raw fx limit q = Ok e) \/ compile_raw fx limit q = Exn ValueError \/
+  (fx = true /\ compile_raw fx limit q = Exn RecursionError).
+Proof. unfold compile_raw. apply parse_raw_total. Qed.
+
+(* a limit of one level per token is always enough: the outcome is then a tree
+   or a GENUINE rejection *)
+Lemma compile_raw_enough fx limit q :
+  S (length (tokenize (fold q))) <= limit -> compile_raw fx limit q <> Exn RecursionError.
+Proof. unfold compile_raw. apply parse_raw_enough. Qed.
+
+(* compile = compile_raw except that an exhausted depth is reported as ValueError *)
+Lemma compile_of_raw fx limit q :
+  compile_raw fx limit q <> Exn RecursionError -> compile fx limit q = compile_raw fx limit q.
+Proof.
+  unfold compile, compile_raw, parse_tokens. intro H.
+  destruct (parse_raw fx limit (tokenize (fold q))) as [e|[]]; try reflexivity. congruence.
+Qed.
 
 (* search: a verdict or ValueError *)
 Lemma search_total fx limit (q : str) (root : node) :
@@ -150,9 +210,106 @@ Proof.
   - right; reflexivity.
 Qed.
 
+(* ---------------------------------------------------------------- more depth never changes an answer *)
+
+(* [rec'] answers like [rec] wherever [rec] did not run out of depth *)
+Definition extends (rec rec' : parser) : Prop :=
+  forall ts, rec ts <> Exn RecursionError -> rec' ts = rec ts.
+
+Lemma bind_not_rec {A B} (x : res A) (k : A -> res B) :
+  (let* a := x in k a) <> Exn RecursionError -> x <> Exn RecursionError.
+Proof. destruct x as [a|e]; simpl; [discriminate|]. intros H He. apply H. inversion He; subst. reflexivity. Qed.
+
+Lemma p_grouping_ext fx rec rec' : extends rec rec' -> extends (p_grouping fx rec) (p_grouping fx rec').
+Proof.
+  intros Hx ts Hn. destruct ts as [|t r]; [reflexivity|].
+  unfold p_grouping in *.
+  destruct (tk_kind t); try reflexivity.
+  - pose proof (bind_not_rec _ _ Hn) as H1. rewrite (Hx r H1). reflexivity.
+  - pose proof (bind_not_rec _ _ Hn) as H1. rewrite (Hx r H1). reflexivity.
+  - pose proof (bind_not_rec _ _ Hn) as H1. rewrite (Hx r H1).
+    destruct (rec r) as [[e r1]|]; [|reflexivity]. simpl in *.
+    destruct (next_is KExactEnd r1) as [[t1 r2]|]; [reflexivity|].
+    destruct (next_is KExactOpt r1) as [[t1 r2]|]; [|reflexivity].
+    destruct (next_is KExactEnd r2) as [[t2 r3]|]; [reflexivity|].
+    pose proof (bind_not_rec _ _ Hn) as H2. rewrite (Hx r2 H2). reflexivity.
+Qed.
+
+Lemma p_neg_ext fx rec rec' : extends rec rec' -> extends (p_neg fx rec) (p_neg fx rec').
+Proof.
+  intros Hx ts Hn. unfold p_neg in *.
+  destruct (next_is KNeg ts) as [[t r]|]; [|apply p_grouping_ext; assumption].
+  pose proof (bind_not_rec _ _ Hn) as H1. rewrite (p_grouping_ext fx rec rec' Hx r H1). reflexivity.
+Qed.
+
+Lemma p_loop_ext (p p' : parser) k mk : extends p p' ->
+  forall n e ts, p_loop p k mk n e ts <> Exn RecursionError -> p_loop p' k mk n e ts = p_loop p k mk n e ts.
+Proof.
+  intros Hx. induction n as [|n IH]; intros e ts Hn; simpl in *.
+  - reflexivity.
+  - destruct (next_is k ts) as [[t r]|]; [|reflexivity].
+    pose proof (bind_not_rec _ _ Hn) as H1. rewrite (Hx r H1).
+    destruct (p r) as [[e2 r2]|]; [|reflexivity]. simpl in *. apply IH. exact Hn.
+Qed.
+
+Lemma p_and_ext fx rec rec' : extends rec rec' -> extends (p_and fx rec) (p_and fx rec').
+Proof.
+  intros Hx ts Hn. unfold p_and in *.
+  pose proof (bind_not_rec _ _ Hn) as H1. rewrite (p_neg_ext fx rec rec' Hx ts H1).
+  destruct (p_neg fx rec ts) as [[e r]|]; [|reflexivity]. simpl in *.
+  apply p_loop_ext; [apply p_neg_ext; exact Hx | exact Hn].
+Qed.
+
+Lemma p_or_body_ext fx rec rec' : extends rec rec' -> extends (p_or_body fx rec) (p_or_body fx rec').
+Proof.
+  intros Hx ts Hn. unfold p_or_body in *.
+  pose proof (bind_not_rec _ _ Hn) as H1. rewrite (p_and_ext fx rec rec' Hx ts H1).
+  destruct (p_and fx rec ts) as [[e r]|]; [|reflexivity]. simpl in *.
+  apply p_loop_ext; [apply p_and_ext; exact Hx | exact Hn].
+Qed.
+
+Lemma p_or_step : forall f, extends (p_or true f) (p_or true (S f)).
+Proof.
+  induction f as [|f IH]; intros ts Hn; [simpl in Hn; congruence|].
+  change (p_or true (S (S f)) ts) with (p_or_body true (p_or true (S f)) ts).
+  change (p_or true (S f) ts) with (p_or_body true (p_or true f) ts) in *.
+  apply p_or_body_ext; assumption.
+Qed.
+
+Lemma p_or_mono f f' : f <= f' -> extends (p_or true f) (p_or true f').
+Proof.
+  induction 1 as [|f' Hle IH]; intros ts Hn; [reflexivity|].
+  rewrite <- (IH ts Hn). apply p_or_step. rewrite (IH ts Hn). exact Hn.
+Qed.
+
+(* MORE DEPTH NEVER CHANGES AN ANSWER: an outcome that is not "depth exhausted"
+   (a tree or a genuine ValueError) is the outcome at every larger depth *)
+Lemma compile_raw_mono limit limit' q :
+  limit <= limit' -> compile_raw true limit q <> Exn RecursionError ->
+  compile_raw true limit' q = compile_raw true limit q.
+Proof.
+  unfold compile_raw, parse_raw. intros Hle Hn.
+  set (ts := tokenize (fold q)) in *.
+  assert (Hm : Nat.min (S (length ts)) limit <= Nat.min (S (length ts)) limit') by lia.
+  pose proof (bind_not_rec _ _ Hn) as H1.
+  rewrite (p_or_mono _ _ Hm ts H1). reflexivity.
+Qed.
+
+(* all sufficient depths agree (also after the except clause) *)
+Lemma compile_depth_independent limit limit' q :
+  S (length (tokenize (fold q))) <= limit -> S (length (tokenize (fold q))) <= limit' ->
+  compile true limit q = compile true limit' q.
+Proof.
+  intros H1 H2.
+  pose proof (compile_raw_enough true limit q H1) as N1.
+  pose proof (compile_raw_enough true limit' q H2) as N2.
+  rewrite (compile_of_raw _ _ _ N1), (compile_of_raw _ _ _ N2).
+  unfold compile_raw, parse_raw. rewrite !Nat.min_l by assumption. reflexivity.
+Qed.
+
 (* ---------------------------------------------------------------- unbalanced grouping symbols *)
 
-(* RECORD OF THE REPAIRED DEFECT (fx = false, the code before the fix: commit):
+(* RECORD OF THE REPAIRED DEFECT (fx = false: behaviour before fix commit 1bd4096):
      forall q, balanced_groupers q = false -> compile q = Exn ValueError
    was false: a closing symbol in operand position became a search term. *)
 Lemma unbalanced_rejected_refuted :
